@@ -2,7 +2,7 @@
     ([annot], [flat_ok], [vok]) and the lemmas about sub-plans lifted through a field or a union member. *)
 From Coq Require Import List String Bool Arith ZArith Lia.
 From Thunder Require Import Lib.Json Federation.Merge Federation.MergeProofsBase Federation.Normalize Federation.Planner
-  Federation.Executor Federation.ExecutorProofs Federation.NormalizeProofs Federation.FedBase Federation.Premises.
+  Federation.Executor Federation.ExecutorProofs Federation.NormalizeProofs Federation.PlannerProofs Federation.FedBase Federation.Premises.
 Import ListNotations.
 Open Scope string_scope.
 Open Scope list_scope.
@@ -27,13 +27,14 @@ Fixpoint vok (g : gschema) (rty : rtype) (v : aval) {struct v} : Prop :=
   match v with
   | ANull => True
   | AList l => (fix all (l : list aval) : Prop := match l with [] => True | x :: t => vok g rty x /\ all t end) l
-  | ARef t _ => match rty with RObj o => t = o | RScalar => True | RUnion _ => False end
+  | ARef t _ => match rty with RObj o => t = o /\ o <> "Leaf" | RScalar => True | RUnion _ => False end
   | AURef t _ => match rty with
                  | RUnion u => exists ms, union_members g u = Some ms /\ In t ms
                  | RScalar => True
                  | RObj _ => False
                  end
-  | AScalar _ | ALeaf _ _ => match rty with RScalar => True | _ => False end
+  | AScalar _ => match rty with RScalar => True | _ => False end
+  | ALeaf _ _ => match rty with RScalar => True | RObj o => o = "Leaf" | RUnion _ => False end
   end.
 
 Definition world_ok (w : world) (g : gschema) : Prop :=
@@ -176,3 +177,84 @@ Section Sem.
       + apply lookup_set_key_same. congruence.
   Qed.
 End Sem.
+
+(** ** what [fed_ok0] and [plain_ok] say, as propositions *)
+Lemma union_members_in : forall g u ms, union_members g u = Some ms -> In (u, ms) (g_unions g).
+Proof.
+  intros g u ms Hu. unfold union_members in Hu. induction (g_unions g) as [|[k v] t IH]; simpl in Hu; [discriminate|].
+  destruct (String.eqb u k) eqn:E.
+  - inversion Hu; subst. apply String.eqb_eq in E. subst. left; reflexivity.
+  - right. apply IH; exact Hu.
+Qed.
+
+Section FromBool0.
+  Variable g : gschema.
+  Hypothesis Hok : fed_ok0 g = true.
+
+  Lemma ok0_nothing_returns_query : forall ty f o owners, find_gfield g ty f = Some (RObj o, owners) -> o <> "Query".
+  Proof.
+    intros ty f o owners E. unfold fed_ok0 in Hok. apply andb_prop in Hok as [H _]. apply andb_prop in H as [H _].
+    apply find_gfield_in in E. eapply forallb_forall in H; [|exact E]. cbv beta iota zeta in H.
+    apply negb_true_iff in H. intros ->. rewrite String.eqb_refl in H. discriminate.
+  Qed.
+
+  Lemma ok0_no_query_member : forall u ms, union_members g u = Some ms -> ~ In "Query" ms.
+  Proof.
+    intros u ms Hu. unfold fed_ok0 in Hok. apply andb_prop in Hok as [H _]. apply andb_prop in H as [_ H].
+    apply union_members_in in Hu. eapply forallb_forall in H; [|exact Hu]. change (snd (u, ms)) with ms in H.
+    apply negb_true_iff in H. intros Hq. apply (proj2 (existsb_eqb_In _ _)) in Hq. congruence.
+  Qed.
+
+  Lemma ok0_coordinator : forall ty f, owns g coordinator ty f = false.
+  Proof.
+    intros ty f. unfold owns. destruct (find_gfield g ty f) as [[rty owners]|] eqn:E; auto.
+    destruct (existsb (String.eqb coordinator) owners) eqn:Ex; auto.
+    apply existsb_eqb_In in Ex. pose proof (owner_in_services _ _ _ _ _ _ (find_gfield_in _ _ _ _ _ E) Ex) as Hin.
+    unfold fed_ok0 in Hok. apply andb_prop in Hok as [_ H]. apply negb_true_iff in H.
+    apply (proj2 (existsb_eqb_In _ _)) in Hin. congruence.
+  Qed.
+End FromBool0.
+
+Lemma fed_ok_ok0 : forall g, fed_ok g = true -> fed_ok0 g = true.
+Proof.
+  intros g H. destruct (fed_ok_parts g H) as [P1 [_ [P3 [_ P5]]]]. unfold fed_ok0.
+  apply andb_true_intro. split; [apply andb_true_intro; split|].
+  - apply forallb_forall. intros [[[ty f] rty] owners] Hin. destruct (P1 _ _ _ _ Hin) as [_ [Hb _]].
+    destruct rty as [|o|u]; auto. apply negb_true_iff. apply String.eqb_neq. apply Hb. reflexivity.
+  - apply forallb_forall. intros [u ms] Hin. simpl. apply negb_true_iff.
+    destruct (existsb (String.eqb "Query") ms) eqn:E; auto. exfalso. apply (P3 u ms Hin). apply existsb_eqb_In; exact E.
+  - apply negb_true_iff. destruct (existsb (String.eqb coordinator) (services_of g)) eqn:E; auto.
+    exfalso. apply P5. apply existsb_eqb_In; exact E.
+Qed.
+
+Section FromPlain.
+  Variable g : gschema.
+  Hypothesis Hpl : plain_ok g = true.
+
+  Lemma plain_fields : forall f rty owners, find_gfield g "Leaf" f = Some (rty, owners) ->
+    rty = RScalar /\ selector_of g "Leaf" f = None.
+  Proof.
+    intros f rty owners E. unfold plain_ok in Hpl. apply andb_prop in Hpl as [H _]. apply andb_prop in H as [H _].
+    apply find_gfield_in in E. eapply forallb_forall in H; [|exact E]. cbv beta iota zeta in H.
+    unfold is_leaf in H. rewrite String.eqb_refl in H. simpl in H. apply andb_prop in H as [H1 H2].
+    split; [destruct rty; try discriminate; reflexivity | destruct (selector_of g "Leaf" f); [discriminate | reflexivity]].
+  Qed.
+
+  Lemma plain_served : forall ty f owners svc, find_gfield g ty f = Some (RObj "Leaf", owners) -> In svc owners ->
+    forall f' rty' owners', find_gfield g "Leaf" f' = Some (rty', owners') -> In svc owners'.
+  Proof.
+    intros ty f owners svc E Hs f' rty' owners' E'. unfold plain_ok in Hpl. apply andb_prop in Hpl as [H _]. apply andb_prop in H as [_ H].
+    apply find_gfield_in in E. eapply forallb_forall in H; [|exact E]. cbv beta iota zeta in H.
+    unfold is_leaf in H. rewrite String.eqb_refl in H. simpl in H. eapply forallb_forall in H; [|exact Hs].
+    unfold serves_leaf in H. apply find_gfield_in in E'. eapply forallb_forall in H; [|exact E']. cbv beta iota zeta in H.
+    unfold is_leaf in H. rewrite String.eqb_refl in H. simpl in H. apply existsb_eqb_In; exact H.
+  Qed.
+
+  Lemma plain_not_member : forall u ms, union_members g u = Some ms -> ~ In "Leaf" ms.
+  Proof.
+    intros u ms Hu. unfold plain_ok in Hpl. apply andb_prop in Hpl as [_ H].
+    apply union_members_in in Hu. eapply forallb_forall in H; [|exact Hu]. change (snd (u, ms)) with ms in H.
+    apply negb_true_iff in H. intros Hq.
+    assert (existsb is_leaf ms = true) by (apply existsb_exists; exists "Leaf"; split; [exact Hq | reflexivity]). congruence.
+  Qed.
+End FromPlain.
